@@ -16,6 +16,8 @@ INFO = {
  'C16a': ('C16', 'DSS::Verify tests r < q twice, never s < q', 'a valid signature with s + q'),
  'C01a': ('C01', 'TMCG_CreateCardSecret (key-ring variant): XOR row update stores 1 for 1^1', 'three or more players'),
  'C17a': ('C17', 'JareckiLysyanskayaRVSS::Reconstruct demands t+2 shares', 'n = 2t+1 with exactly t deviating parties and a complained-about opening'),
+ 'C10a': ('C10', 'TMCG_PublicKey::check tests the STAGE3 round count on stage2_size', 'an otherwise valid, re-signed key whose non-residue proof (stage 3) was cut to fewer rounds than TMCG_KEY_NIZK_STAGE3'),
+ 'C14a': ('C14', 'RBC r-answer handler no longer overwrites an already stored payload mbar[tag]', 'an equivocating sender: a party that got m\' by r-send but whose quorum agreed on H(m) keeps and delivers m\' after a correct r-answer'),
  'C13a': ('C13', 'aiounicast_select::Receive removes the IV using the last read size', 'first read on an encrypted link ends inside the 16-byte IV'),
 }
 for sid, (prop, what, needs) in INFO.items():
